@@ -351,7 +351,11 @@ def skeleton(rng):
             ops.append(("subscribe_all_agents", c3, rng.random() < 0.5))
         if rng.random() < 0.5:
             ops.append(("drain",))
-        ops += [("unregister_agent", b), ("register_agent", b, "addr_%s_bis" % b), ("drain",)]
+        if rng.random() < 0.35:
+            # the agent simply registers again with another address (it moved), without unregistering first
+            ops += [("register_agent", b, "addr_%s_moved" % b), ("drain",)]
+        else:
+            ops += [("unregister_agent", b), ("register_agent", b, "addr_%s_bis" % b), ("drain",)]
         if rng.random() < 0.4:
             ops += [("unregister_agent", b), ("register_agent", b, "addr_%s_ter" % b), ("drain",)]
     return kind, [list(o) for o in ops]
